@@ -500,7 +500,15 @@ where
         let wait_item = Item::Wait(wg.add(1));
         self.insert_buf_tx
             .try_send(wait_item)
-            .map(|_| wg.wait())
+            .map(|_| {
+                // close() raises the flag before it stops the processor, and the processor
+                // releases what is buffered when it stops: if the flag is still down here, the
+                // item was queued in time to be released; if it is up, nobody may be left to
+                // release it, so do not block.
+                if !self.is_closed.load(Ordering::SeqCst) {
+                    wg.wait()
+                }
+            })
             .map_err(|e| CacheError::SendError(format!("cache set buf sender: {}", e)))
     }
 
@@ -551,6 +559,7 @@ where
         #[cfg(transparencies_stretto_verif)]
         crate::verif::yield_point("close.after_clear");
         // Block until processItems thread is returned
+        self.is_closed.store(true, Ordering::SeqCst);
         self.stop_tx
             .send(())
             .map_err(|e| CacheError::SendError(format!("{}", e)))?;
@@ -673,7 +682,11 @@ where
                         tracing::error!("fail to handle cleanup event: {}", e);
                     }
                 },
-                recv(self.stop_rx) -> _ => return Ok(()),
+                recv(self.stop_rx) -> _ => {
+                    // release the callers of wait() whose items are still buffered
+                    let _ = CacheCleaner::new(&mut self).clean();
+                    return Ok(());
+                },
             }
         })
     }
